@@ -16,6 +16,8 @@ ASSUMPTIONS = ["the delivered model is that of the repository's main branch (whi
                "D-rtps-1 D-wire-3 D-wire-4) WITH fixes/D64.patch and fixes/D65.patch applied",
                "datagrams are structurally well-formed little-endian RTPS messages (lengths consistent); malformed byte strings are C07",
                "reliable KEEP_ALL endpoints, debug profile (overflow checks on), no virtual time passes before the liveness epilogue",
+               "memory: the peak heap of the simulated process may grow by at most 64 x datagram length + 256 KiB while one injected datagram is "
+               "processed, and no single state may exceed 2 GiB (counting allocator of the dsim extension `x-w2d-inject`)",
                "DATA / DATA_FRAG payloads are small valid or empty encodings; discovery-data and XTypes decoders reached through built-in readers are C07"]
 
 P1b, P2b = prefix_of(0), prefix_of(1)
@@ -27,7 +29,7 @@ def case(na, nb, dgs, hold=True, port="user"):
     if not hold:
         l = l[:-1]
     for d in dgs:
-        l += inject(d, port) if hold else [f"inject P1 P2 {port} {d}"]
+        l += inject(d, port) if hold else [f"x-w2d-inject P1 P2 {port} {d}"]
     return l + EPILOGUE
 
 
@@ -54,6 +56,11 @@ CORPUS = [
     # D2: a GAP that is not contiguous with what the reader has (3 is missing) is ignored on main; the contiguous one is honoured
     ("-", case(2, 2, [datagram(P1b, [m_gap(RA_, WA_, 5, 7, 0, [])]), datagram(P1b, [m_heartbeat(RA_, WA_, 1, 9, 100)]),
                       datagram(P1b, [m_gap(RA_, WA_, 3, 7, 4, [0, 1, 3])]), datagram(P1b, [m_heartbeat(RA_, WA_, 1, 12, 101)])])),
+    # element counts read from the wire that exceed what the submessage carries: INFO_REPLY numLocators 2^20 / u32::MAX with no locator
+    # present, a truthful unicast list followed by a lying multicast list; the parser runs out of ITS octets and only that submessage is dropped
+    ("-", case(2, 2, [datagram(UNKNOWN_PREFIX, [m_info_reply(0, claimed=2**20), m_heartbeat(RA_, WA_, 1, 5, 100)]),
+                      datagram(P1b, [m_info_reply(0, claimed=U32_MAX), m_heartbeat(RA_, WA_, 1, 5, 100)]),
+                      datagram(P1b, [m_info_reply(1, None, multicast=(1, 2**31)), m_info_reply(2, claimed=1, trailing=4), m_heartbeat(RA_, WA_, 1, 6, 101)])])),
     # D-wire-4: a set that could name a number above i64::MAX is rejected by the decoder; D-wire-3: an unknown kind with length 0 swallows the rest
     ("-", case(2, 2, [datagram(P1b, [m_gap(RA_, WA_, 3, I64_MAX - 1, 3, [0]), m_heartbeat(RA_, WA_, 1, 5, 100)]),
                       datagram(P1b, [sub(0x80, 0, b""), m_heartbeat(RA_, WA_, 1, 6, 101)])])),
@@ -72,7 +79,7 @@ CORPUS = [
 
 
 def injected(case_lines):
-    return [l.split() for l in case_lines if l.startswith("inject ")]
+    return [l.split() for l in case_lines if l.startswith("inject ") or l.startswith("x-w2d-inject ")]
 
 
 def nontrivial(case, out):
@@ -86,7 +93,11 @@ def nontrivial(case, out):
 
 def oracle(case, out):
     viol = []
-    bad = next((k for k, o in enumerate(out) if o in BAD or o.startswith("CRASH")), None)
+    bad = next((k for k, o in enumerate(out) if o in BAD or o.startswith("CRASH") or o.startswith("ALLOC")), None)
+    if bad is not None and out[bad].startswith("ALLOC"):
+        n = len(case.lines[bad].split()[4]) // 2
+        return [{"what": f"op {bad}: processing one injected datagram of {n} bytes raised the peak heap by {out[bad].split()[1]} bytes "
+                         f"(allowed {ALLOC_C} * {n} + {ALLOC_D}): memory is not proportional to the datagram size", "at": bad}]
     if bad is not None:
         tag = case.meta.get("exemplar") if isinstance(case.meta, dict) else None
         v = {"what": f"op {bad} `{case.lines[bad][:200]}` answered {out[bad]}: the worker of the factory died / did not return", "at": bad}
@@ -130,7 +141,7 @@ def run(ctx):
             ctx.count("datagrams")
             ctx.count("prefix:" + ("peer" if t[4][16:40] == prefix_of(0).hex() else "victim" if t[4][16:40] == prefix_of(1).hex() else "other"))
     ctx.differential(ENGINE, cases, nontrivial=nontrivial, oracle=oracle, shrink=True,
-                     env=dsim_env(jobs=16, case_timeout_ms=150000))
+                     env={**dsim_env(jobs=16, case_timeout_ms=150000), **ALLOC_ENV})
 
 
 TECHNIQUE = ("Lean 4 theorems (total, invariant-preserving, step-bounded dispatch for all submessage lists and field values) over a panic-aware "
